@@ -124,11 +124,14 @@ func (e *Eng) step(fr *Frame, st *State, instr ssa.Instruction) {
 		e.mapInit(st, mt, r)
 		fr.vals[in] = &MapV{r}
 	case *ssa.MakeChan:
-		fr.vals[in] = e.newRef(fr, st, "chan")
-		if c, ok := in.Size.(*ssa.Const); ok {
-			if n, ok := constInt64(c); ok {
-				e.hstore(st, "G|chancap", []T{fr.vals[in].(T)}, types.Typ[types.Int], i64(n))
-			}
+		ch := e.newRef(fr, st, "chan")
+		fr.vals[in] = ch
+		capT := toI64(in.Size.Type(), e.val(fr, in.Size).(T))
+		e.hstore(st, "G|chancap", []T{ch}, types.Typ[types.Int], capT)
+		e.hstore(st, "G|chansends", []T{ch}, types.Typ[types.Int], i64(0))
+		e.hstore(st, "G|chanrecv", []T{ch}, types.Typ[types.Int], i64(0))
+		if !fr.pure && fr.fn == e.fn {
+			e.localChans = append(e.localChans, localChan{ch, in})
 		}
 	case *ssa.MakeSlice:
 		fr.vals[in] = e.makeSlice(fr, st, in)
@@ -181,10 +184,22 @@ func (e *Eng) step(fr *Frame, st *State, instr ssa.Instruction) {
 			lo = bvLit(64, ^uint64(0))
 		}
 		e.assume(st, tAnd(app("bvsle", lo, idx), app("bvslt", idx, i64(int64(len(in.States))))))
+		for k, sst := range in.States {
+			if ch, ok := e.val(fr, sst.Chan).(T); ok {
+				name := "G|chanrecv"
+				if sst.Dir == types.SendOnly {
+					name = "G|chansends"
+				}
+				e.chanCount(st, name, ch, tEq(idx, i64(int64(k))))
+			}
+		}
 		fr.vals[in] = tv
 		e.note("select: a ready case is chosen nondeterministically; channel contents are not modelled")
 	case *ssa.Send:
-		e.note("channel send: contents not modelled")
+		e.note("channel send: contents not modelled, only counted")
+		if ch, ok := e.val(fr, in.Chan).(T); ok {
+			e.chanCount(st, "G|chansends", ch, "true")
+		}
 	case *ssa.SliceToArrayPointer, *ssa.MultiConvert:
 		fr.vals[in.(ssa.Value)] = e.freshVal(in.(ssa.Value).Type(), "unsupported")
 		e.note("unsupported conversion: havoc")
@@ -502,7 +517,10 @@ func (e *Eng) unop(fr *Frame, st *State, in *ssa.UnOp) Val {
 		}
 		return v
 	case token.ARROW:
-		e.note("channel receive: value not modelled")
+		e.note("channel receive: value not modelled, only counted")
+		if ch, ok := x.(T); ok && !fr.pure {
+			e.chanCount(st, "G|chanrecv", ch, "true")
+		}
 		if in.CommaOk {
 			return &TupleV{[]Val{e.freshVal(in.X.Type().Underlying().(*types.Chan).Elem(), "recv"), e.fresh("recvok", sBool)}}
 		}
@@ -1008,4 +1026,13 @@ func (e *Eng) next(fr *Frame, st *State, in *ssa.Next) Val {
 	tv.Elems = append(tv.Elems, k, v)
 	e.note("range over map: iteration order abstracted")
 	return tv
+}
+
+
+// chanCount adds 1 to a per-channel ghost counter when cond holds.
+func (e *Eng) chanCount(st *State, name string, ch T, cond T) {
+	h := e.heapTerm(st, name, arrSort(sRef, sI64))
+	cur := app("select", h, ch)
+	st.heap[name] = app("store", h, ch, tIte(cond, app("bvadd", cur, i64(1)), cur))
+	e.modified[name] = true
 }
